@@ -37,6 +37,7 @@ def run(rep, tier, seed, replay):
     io = ltv.run_sharded(impl, cases, timeout=900)
     nontrivial, mism, samples = set(), 0, []
     outcomes = {"Ignored": 0, "Loaded": 0, "Threw": 0, "T": 0}
+    branches = {}
     for i, case in enumerate(cases):
         m = mo[i] if i < len(mo) else "MISSING"
         full = io[i] if i < len(io) else "MISSING"
@@ -46,6 +47,8 @@ def run(rep, tier, seed, replay):
             outcomes["T"] += 1
             if " unc=" in o and " unc=none" not in o:
                 nontrivial.add(hashlib.sha1(case.encode()).digest())
+        for br in G.model_branches(case, full):
+            branches[br] = branches.get(br, 0) + 1
         for k in ("Ignored", "Loaded", "Threw"):
             if o.startswith("out=" + k):
                 outcomes[k] += 1
@@ -74,7 +77,7 @@ def run(rep, tier, seed, replay):
                    rule="cases = corpus + hand list + honest resume objects + malformed resume objects (L, model compared) + "
                         "two real lifetimes with a session history (T, model compared incl. the saved object); non-trivial = distinct L case that loads, requests a recheck of some "
                         "piece and ends with some piece set",
-                   samples=samples, input_distribution=stats, mismatches=mism, outcomes=outcomes, exhaustive=False)
+                   samples=samples, input_distribution=stats, mismatches=mism, outcomes=outcomes, model_branches=dict(sorted(branches.items())), exhaustive=False)
     rep.assumptions += ["files are readable regular files or absent (C09 covers the other disk states)",
                         "a rewritten file changes size or mtime (seconds) unless the case says otherwise",
                         "padding files only in L cases"]
